@@ -128,11 +128,55 @@ def battery():
         q.append(["f", "progressions", "to_chords", [["bII", "IIm7", "II"], k]])
         q.append(["scale", "Chromatic", [k], "ascending", []])
         q.append(["scale", "Chromatic", [k], "descending", []])
+    q += _every_public_function()
     for n in ["C" + "b" * 12, "C" + "#" * 11 + "b", "E" + "#" * 24, "F" + "b" * 22]:
         q.append(["f", "notes", "note_to_int", [n]])
         q.append(["f", "intervals", "major_third", [n]])
         q.append(["f", "notes", "remove_redundant_accidentals", [n]])
     return q
+
+
+def _every_public_function():
+    """at least one query for every public function of the theory modules (found by introspection, so new entry points are
+    picked up too): one-parameter functions by parameter name, the rest from a table of representative arguments"""
+    import inspect
+    table = {
+        ("notes", "is_enharmonic"): [["C#", "Db"], ["C", "D"]], ("notes", "is_valid_note"): [["C#"], ["H"]],
+        ("intervals", "interval"): [["C", "E", 2], ["eb", "G", 4]], ("intervals", "unison"): [["C"], ["C", "G"]],
+        ("intervals", "get_interval"): [["C", 4], ["C", 4, "G"], ["E", 7, "Eb"], ["B", 11, "F#"], ["C", 4, "C"]],
+        ("intervals", "is_perfect_consonant"): [["C", "G"], ["C", "F", False]], ("intervals", "is_imperfect_consonant"): [["C", "E"]],
+        ("intervals", "is_dissonant"): [["C", "F"], ["C", "F", True]], ("keys", "is_valid_key"): [["C"], ["x"]], ("keys", "get_key"): [[0], [-3], [6]],
+        ("chords", "invert"): [[["C", "E", "G"]]], ("chords", "first_inversion"): [[["C", "E", "G"]]], ("chords", "second_inversion"): [[["C", "E", "G"]]],
+        ("chords", "third_inversion"): [[["C", "E", "G", "B"]]],
+        ("chords", "determine_triad"): [[["C", "E", "G"]], [["C", "E", "G"], True, True], [["E", "G", "C"], True, True], [["G", "B", "D"], True, True],
+                                        [["A", "C", "E"], True], [["D", "F", "A"], False, True]],
+        ("chords", "determine_seventh"): [[["G", "B", "D", "F"]], [["G", "B", "D", "F"], True, True, True], [["D", "F", "A", "C"], True]],
+        ("chords", "determine_extended_chord5"): [[["C", "E", "G", "Bb", "D"]], [["C", "E", "G", "Bb", "D"], True, True, True]],
+        ("chords", "determine_extended_chord6"): [[["C", "E", "G", "Bb", "D", "F#"]], [["C", "E", "G", "Bb", "D", "A"], True]],
+        ("chords", "determine_extended_chord7"): [[["C", "E", "G", "Bb", "D", "F", "A"]], [["C", "E", "G", "Bb", "D", "F", "A"], True, True, True]],
+        ("chords", "int_desc"): [[1], [3], [6]], ("chords", "determine_polychords"): [[["C", "E", "G", "B", "D", "F#"]], [["C", "E", "G", "D", "F#", "A"], True]],
+        ("chords", "triad"): [["E", "C"]], ("chords", "seventh"): [["E", "C"]],
+        ("progressions", "tuple_to_string"): [[["III", -1, "m7"]], [["V", 2, ""]]], ("progressions", "interval_diff"): [["I", "V", 7], ["II", "VII", 9]],
+        ("progressions", "skip"): [["I"], ["VI", 3]], ("progressions", "substitute_minor_for_major"): [[["I", "IV"], 0], [["IM7"], 0, True]],
+        ("progressions", "substitute_major_for_minor"): [[["VIm"], 0], [["IIm7", "V"], 0]],
+        ("progressions", "substitute_diminished_for_diminished"): [[["VIIdim"], 0], [["IIdim7"], 0]],
+        ("progressions", "substitute_diminished_for_dominant"): [[["VIIdim"], 0], [["V7", "I"], 0]],
+        ("value", "subtract"): [[4, 8], [2, 6]], ("value", "tuplet"): [[8, 3, 2], [4, 5, 4]], ("meter", "valid_beat_duration"): [[4], [6], [0.5]],
+    }
+    single = {"note": ["C", "F#", "Bb"], "key": ["C", "eb", "F#"], "value": [4, 8, 3], "chord": [["C", "E", "G"]], "meter": [[6, 8], [5, 4]]}
+    res = []
+    for name, mod in sorted(_mods().items()):
+        for f, o in sorted(vars(mod).items()):
+            if not inspect.isfunction(o) or o.__module__ != mod.__name__ or f.startswith("_") or f == "augment_or_diminish_until_the_interval_is_right":
+                continue
+            if (name, f) in table:
+                res += [["f", name, f, a] for a in table[(name, f)]]
+                continue
+            params = [p for p in inspect.signature(o).parameters.values()]
+            required = [p.name for p in params if p.default is inspect.Parameter.empty]
+            if len(required) == 1 and required[0] in single:
+                res += [["f", name, f, [a]] for a in single[required[0]]]
+    return res
 
 
 def _qname(q):
@@ -183,14 +227,33 @@ def cold_answers():
     return _COLD
 
 
+_EMPTY_AT_IMPORT = None
+
+
+def _memo_tables():
+    """private module-level dicts / lists / sets of the theory modules (and fft) that are EMPTY in a fresh interpreter: these
+    are memo tables, not constants.  Found by introspection the first time, i.e. before this process has asked anything."""
+    global _EMPTY_AT_IMPORT
+    if _EMPTY_AT_IMPORT is None:
+        from mingus.extra import fft
+        found = []
+        for mod in list(_mods().values()) + [fft]:
+            for name, val in vars(mod).items():
+                if name.startswith("_") and not name.startswith("__") and isinstance(val, (dict, list, set)) and len(val) == 0:
+                    found.append((mod, name))
+        _EMPTY_AT_IMPORT = found
+    return _EMPTY_AT_IMPORT
+
+
 def _reset():
-    from mingus.core import chords, keys
-    from mingus.extra import fft  # noqa
-    for mod, names in ((keys, ("_key_cache",)), (chords, ("_triads_cache", "_sevenths_cache"))):
-        for n in names:
-            c = getattr(mod, n, None)
-            if isinstance(c, dict):
-                c.clear()
+    """every case starts from cold memo tables, so that a failing history replays from a fresh interpreter"""
+    from mingus.extra import fft
+    for mod, name in _memo_tables():
+        val = getattr(mod, name, None)
+        if isinstance(val, (dict, list, set)):
+            val.clear()
+    if hasattr(fft, "_last_asked"):
+        fft._last_asked = None
 
 
 def _mutate(r, code):
@@ -215,6 +278,7 @@ def _mutate(r, code):
 
 
 def check_history(ctx, case):
+    _memo_tables()
     B = battery()
     cold = cold_answers()
     if len(cold) != len(B):
@@ -223,8 +287,11 @@ def check_history(ctx, case):
     _reset()
     mutated = set()
     flag = False
-    for (qi, code) in case["history"]:
+    for h in case["history"]:
+        qi, code = h[0], h[1]
         q = B[qi % len(B)]
+        for _ in range(h[2] - 1 if len(h) > 2 else 0):  # the same question asked several times in a row; the last answer is modified
+            run_query(q, mods)
         raw, norm = run_query(q, mods)
         if _qname(q) in mutated:
             flag = True
@@ -238,7 +305,7 @@ def check_history(ctx, case):
         ctx.check(n1 == cold[i], "history/differs-from-cold/%s" % _qname(q),
                   lambda: "%r after history %r: %r, cold interpreter says %r" % (q, [_qname(B[h[0] % len(B)]) for h in case["history"]][-6:], n1, cold[i]))
         ctx.check(n1 == n2, "history/twice-in-a-row/%s" % _qname(q), lambda: "%r: %r then %r" % (q, n1, n2))
-    ctx.note_case(flag or (bool(mutated) and len(case["history"]) >= 2), ["history:%d-calls" % min(40, len(case["history"]) // 10 * 10)])
+    ctx.note_case(flag or bool(mutated), ["history:%d-calls" % min(40, len(case["history"]) // 10 * 10), "history:answer-modified" if mutated else "history:nothing-modified"])
 
 
 def check_fft(ctx, freqs):
@@ -547,19 +614,30 @@ CHECKS = {"returned": check_returned_objects, "history": check_history, "fft": c
 
 def sub_history(ctx, shard, n):
     nb = len(battery())
-    hist = st.lists(st.tuples(st.integers(0, nb - 1), st.integers(0, 26)).map(list), min_size=0, max_size=40)
+    rep = st.sampled_from([1, 1, 2, 3])
+    hist = st.lists(st.tuples(st.integers(0, nb - 1), st.integers(0, 26), rep).map(list), min_size=10, max_size=40) | st.just([])
     # focused histories: hammer one region of the battery (same key / same function family) so cache rows are reused
-    focus = st.integers(0, nb - 1).flatmap(lambda c: st.lists(st.tuples(st.integers(max(0, c - 8), min(nb - 1, c + 8)), st.integers(0, 26)).map(list),
-                                                               min_size=2, max_size=25))
+    focus = st.integers(0, nb - 1).flatmap(lambda c: st.lists(st.tuples(st.integers(max(0, c - 8), min(nb - 1, c + 8)), st.integers(0, 26), rep).map(list),
+                                                               min_size=6, max_size=25))
     if ctx.quick:
         probe = st.lists(st.integers(0, nb - 1), min_size=20, max_size=60)
         strat = st.fixed_dictionaries({"history": hist | focus, "probe": probe})
         # always probe the neighbourhood of what the history touched as well
-        strat = strat.map(lambda c: {"history": c["history"], "probe": c["probe"] + [h[0] for h in c["history"]] + [h[0] + d for h in c["history"][:10] for d in (-1, 1, 2)]})
-        ctx.given("history", check_history, strat, 120)
+        strat = strat.map(lambda c: {"history": c["history"], "probe": c["probe"] + [h[0] for h in c["history"]] + [h[0] + d for h in c["history"][:12] for d in range(-8, 9)]})
+        ctx.given("history", check_history, strat, 250)
     else:
         strat = st.fixed_dictionaries({"history": hist | focus, "probe": st.none()})
         ctx.given("history", check_history, strat, 600)
+
+
+def sub_mutate_each(ctx, shard, n):
+    """systematic: for every battery query, from cold memo tables: ask it (once or twice), modify the answer in place in three
+    ways, then ask it and its neighbourhood again"""
+    nb = len(battery())
+    cases = [{"history": [[i, code, rep]], "probe": [i + d for d in range(-10, 11)]} for i in range(nb) for code in (0, 1, 2) for rep in (1, 2)]
+    if shard == 0:
+        ctx.exhaustive("modify the answer of each battery query, then re-ask its neighbourhood", "%d queries x 3 modifications x {once, twice}" % nb, len(cases))
+    ctx.enumerate("history", check_history, cases[shard::n], size_key=lambda c: c["history"][0][0])
 
 
 def sub_fft(ctx, shard, n):
@@ -604,6 +682,7 @@ def sub_instances(ctx, shard, n):
 
 SUBS = [
     Sub("history", sub_history, quick=6, thorough=16),
+    Sub("mutate_each", sub_mutate_each, quick=6, thorough=8),
     Sub("fft", sub_fft, quick=1, thorough=4),
     Sub("args", sub_args, quick=2, thorough=8),
     Sub("instances", sub_instances, quick=2, thorough=8),
